@@ -54,6 +54,7 @@ func specLargestUnit(d time.Duration) int64 {
 //@ requires [C20.rolling-nonneg] d >= 0 && d <= 1<<53
 //@ ensures [C20.rolling-floor] rollingAvgPeriodDuration(result) <= d
 //@ ensures [C20.rolling-exact] int64(d)%specLargestUnit(d) == 0 && int64(d)/specLargestUnit(d) <= 63 ==> rollingAvgPeriodDuration(result) == d
+//@ ensures [C20.rolling-count] result&0x3f == uint8(ite(int64(d)/specLargestUnit(d) > 63, 63, int64(d)/specLargestUnit(d))) // whole units, saturating at 63 (64 days and more encode as 63 days)
 //@ ensures [C20.rolling-unit] result>>6 == ite(d < 60*time.Second, uint8(0), ite(d < 60*time.Minute, uint8(1), ite(d < 24*time.Hour, uint8(2), uint8(3))))
 
 // ---- sensor_info.go: paged enumeration of Get DCMI Sensor Info (DCMI v1.5 6.5.2)
